@@ -401,6 +401,9 @@ class Interp(object):
             v = self.const_value(segs[-1], line) if len(segs) > 1 and segs[0] in ("crate", "super", "self") else None
         if v is not None:
             return v
+        if len(segs) == 2 and segs[0][:1].isupper() and segs[1][:1].isupper() and (segs[0].endswith("Error") or segs[0] == "Error"):
+            # a unit variant of an error enum (enum definitions are skipped by the parser): opaque value
+            return "::".join(segs)
         self.unsupported(line, "unknown path %s" % "::".join(segs))
 
     def ev_tuple(self, e, env):
